@@ -504,3 +504,53 @@ Print Assumptions C14_lnet_recovery.
 Print Assumptions C14_lnet_observer_item_is_on_the_wire.
 Print Assumptions C14_loop_evm_chains_are_the_wired_ones.
 Print Assumptions C14_loop_signs_only_confirmed_evm_messages.
+
+(* ... and over windows that DO contain cleanup steps at the recovering node (its ticker fires every 30 s; the peers re-send their
+   observations on their own retries, minutes apart): composition with C02_network_liveness_with_cleanup_ticks.  Only guardian-set
+   changes are excluded at node i ([lsetgs_free]); [lnet_ticks_keep i h n0 xs]: at every cleanup step of node i in the window the
+   per-entry function, evaluated at the node's clock reading ([at_clock (l_proc st) (l_now st - 1)]: the composition sets the
+   processor's clock one nanosecond back for the tick), does not delete node i's entry of m (C02_entry_survives_tick: e.g. the entry
+   holds the node's own observation, budget left, no quorum VAA stored yet) *)
+From WH Require Import proofs.ClosureProofs3 proofs.ClosureProofs8.
+
+Theorem C14_lnet_recovery_with_cleanup_ticks :
+  forall recover keccak gov_chain gov_addr decode_hb decodeq encq disable owns signs selfs watches, (forall b, length (keccak b) = 32%nat) ->
+  forall N xs0 xs i G m (S : list nat), (i < N)%nat -> Forall lnop_wf xs0 -> Forall lnop_wf xs ->
+  let lnrun := lnrun recover keccak gov_chain gov_addr decode_hb decodeq encq disable owns signs selfs watches in
+  let stp := fun n x => fst (lnstep recover keccak gov_chain gov_addr decode_hb decodeq encq disable owns signs selfs watches n x) in
+  let n0 := fst (lnrun (lninit N) xs0) in
+  let n1 := fst (lnrun n0 xs) in
+  let h := dg keccak (vaa_of_message 0 m) in
+  (forall st0, nth_error (x_nodes n0) i = Some st0 -> cur (l_proc st0) = Some G /\ alookup h (agg (l_proc st0)) = None) -> ProcSpec.gs_wf G ->
+  (forall x, In x xs -> ltarget x = i -> lsetgs_free x = true) ->
+  always stp (fun n x => x = XLocal i LCleanup -> forall st, nth_error (x_nodes n) i = Some st -> tick_keeps h (at_clock (l_proc st) (l_now st - 1))) n0 xs ->
+  NoDup (map owns S) -> (forall j, In j S -> honest_member recover owns signs G j) ->
+  go_quorum (Z.of_nat (length (keys G))) <= Z.of_nat (length S) -> In i S ->
+  happens stp (lev_reobserved recover keccak gov_chain gov_addr owns signs watches i m) n0 xs ->
+  (forall j, In j S -> j <> i -> happens stp (lev_delivered owns signs selfs i j h) n0 xs) ->
+  (forall st, nth_error (x_nodes n1) i = Some st -> forall o, In o (loopq (l_proc st)) -> o_hash o <> h) ->
+  (exists st e, nth_error (x_nodes n1) i = Some st /\ alookup h (agg (l_proc st)) = Some e /\
+                our_vaa e <> None /\ gs_snap e = Some G /\ submitted e = true) /\
+  happens stp (lev_publishes recover keccak gov_chain gov_addr decode_hb decodeq encq disable owns signs selfs watches i) n0 xs.
+Proof. exact lnet_recovery_ticks. Qed.
+
+(* non-vacuity: the two-node history above with three cleanup steps of node 0 inside the window - nothing due (10 s), SETTLE (45 s),
+   RETRY (350 s: the node's own re-observation request goes out and is published by the next pump) - every premise holds (the
+   pre-history premises are those of C14_lnet_recovery_premises_satisfiable) and the conclusion is computed *)
+Example C14_lnet_recovery_with_cleanup_ticks_premises_satisfiable :
+  let stp := fun n x => fst (qx_lnstep n x) in
+  let n0 := fst (qx_lnrun (lninit 2) qx_pre) in
+  let n1 := fst (qx_lnrun n0 qy_win) in
+  let h := dg qx_keccak (vaa_of_message 0 qx_msg) in
+  Forall lnop_wf qy_win /\
+  (forall x, In x qy_win -> ltarget x = 0%nat -> lsetgs_free x = true) /\
+  lnet_ticks_keep qx_recover qx_keccak 1 (repeat x00 32) (fun _ => None) (fun _ => None) (fun _ => []) false qx_owns qx_signs qx_selfs qx_watches 0 h n0 qy_win /\
+  happens stp (lev_reobserved qx_recover qx_keccak 1 (repeat x00 32) qx_owns qx_signs qx_watches 0 qx_msg) n0 qy_win /\
+  happens stp (lev_delivered qx_owns qx_signs qx_selfs 0 1 h) n0 qy_win /\
+  (forall st, nth_error (x_nodes n1) 0 = Some st -> forall o, In o (loopq (l_proc st)) -> o_hash o <> h) /\
+  (exists st e, nth_error (x_nodes n1) 0 = Some st /\ alookup h (agg (l_proc st)) = Some e /\ submitted e = true /\ settled e = true /\ retries e = 1) /\
+  existsb (fun w => match w with WVaa _ => true | _ => false end) (x_pool n1) = true /\
+  length (filter (fun w => match w with WReq _ _ _ => true | _ => false end) (x_pool n1)) = 2%nat.
+Proof. exact ex_lnet_recovery_ticks. Qed.
+
+Print Assumptions C14_lnet_recovery_with_cleanup_ticks.
